@@ -351,14 +351,22 @@ class Locals:
                 return False
         return True
 
-    def inline(self, expr, use_line=None, depth=6):
+    def inline(self, expr, use_line=None, depth=6, at_def=False):
+        """expr with single-definition locals replaced by their defining expressions.  Default: every location mentioned by
+        the result means its value at use_line (a definition is not inlined across a re-binding of what it mentions).
+        at_def=True: the value of expr as a formula over the locations AS THEY WERE WHEN EACH LOCAL WAS DEFINED (a chain
+        `a = t - self.last; self.last = t; dt = a` gives `t - self.last` for dt: the step that was computed) - for rules that
+        ask what was computed, not what re-evaluating the text now would give."""
         use_line = use_line if use_line is not None else expr.lineno
         me = self
 
         class T(ast.NodeTransformer):
             def visit_Name(self, n):
-                if isinstance(n.ctx, ast.Load) and depth > 0 and me.safe(n.id, use_line):
-                    return me.inline(me.defs[n.id].value, use_line, depth - 1)
+                if isinstance(n.ctx, ast.Load) and depth > 0:
+                    if at_def and n.id in me.defs and me.defs[n.id].lineno < use_line:
+                        return me.inline(me.defs[n.id].value, me.defs[n.id].lineno, depth - 1, True)
+                    if me.safe(n.id, use_line):
+                        return me.inline(me.defs[n.id].value, use_line, depth - 1)
                 return n
         return T().visit(copy.deepcopy(expr))
 
